@@ -93,12 +93,29 @@ func runC39(c *Ctx) {
 			// the tests before Wait
 			tested := map[string]bool{}
 			if loop != nil {
+				// the conditions evaluated before the Wait: if / else-if chains and the cases
+				// of tagless switches among the statements of the loop body
+				var conds []ast.Expr
 				for _, st := range loop.Body.List {
-					ifs, ok := st.(*ast.IfStmt)
-					if !ok {
-						continue
+					switch x := st.(type) {
+					case *ast.IfStmt:
+						for cur := x; cur != nil; {
+							conds = append(conds, cur.Cond)
+							next, _ := cur.Else.(*ast.IfStmt)
+							cur = next
+						}
+					case *ast.SwitchStmt:
+						if x.Tag == nil {
+							for _, cl := range x.Body.List {
+								if cc, ok := cl.(*ast.CaseClause); ok {
+									conds = append(conds, cc.List...)
+								}
+							}
+						}
 					}
-					ast.Inspect(ifs.Cond, func(m ast.Node) bool {
+				}
+				for _, cond := range conds {
+					ast.Inspect(cond, func(m ast.Node) bool {
 						switch x := m.(type) {
 						case *ast.SelectorExpr:
 							if k := fn.FieldKey(x); strings.HasPrefix(k, "util/bufconn.pipe.") {
@@ -299,7 +316,7 @@ func runC39(c *Ctx) {
 		_, isConst := wr.ConstVal(r.Results[0])
 		c.Ob("writer-accounting", "pipe.Write#error-return-reports-accepted-bytes", r.Pos(), !isConst && types_ExprString(r.Results[0]) == types_ExprString(acc.Lhs[0]), "an error return reachable after bytes were accepted returns the running count, not a constant (io.Writer: n is the number of bytes written; the reader will receive them)")
 	}
-	c.Floor("Write error returns after accumulation", nret, 2)
+	c.Floor("Write error returns after accumulation", nret, 1)
 }
 
 func keysOf(m map[string]bool) []string {
